@@ -91,6 +91,14 @@ func Bytes(name string, n int) []byte {
 	return b
 }
 
+// String returns a string of n arbitrary bytes.
+func String(name string, n int) string { return string(Bytes(name, n)) }
+
+// CollisionFree assumes (engine) that the uninterpreted hash functions do not collide on the
+// ground terms built so far: equal outputs of the same hash imply equal inputs. Natively the real
+// hash functions are used and this is a no-op.
+func CollisionFree() {}
+
 // FeltBytes returns the 32-byte big-endian encoding of an arbitrary canonical field element (< P).
 func FeltBytes(name string) [32]byte {
 	var out [32]byte
